@@ -63,6 +63,12 @@ pub fn noise_frames(run: &Run<'_>, p: usize) -> Vec<(String, Vec<u8>, bool)> {
         assert!(!list.iter().any(|c| c.0 == u.pid.clock));
         out.push(("announce-unacceptable-master".into(), rc::encode(&u.announce_msg(3)), false));
         out.push(("announce-unacceptable-master-again".into(), rc::encode(&u.announce_msg(4)), false));
+        if let Some(listed) = list.first() {
+            let mut relay = u.clone();
+            relay.gm_identity = listed.0;
+            relay.steps_removed = 1;
+            out.push(("announce-unacceptable-relay-of-listed-grandmaster".into(), rc::encode(&relay.announce_msg(5)), false));
+        }
     }
     // every harness peer that this port's list does not contain (it may well be the parent
     // selected through another port), with its usual and with conspicuously different contents
@@ -80,6 +86,15 @@ pub fn noise_frames(run: &Run<'_>, p: usize) -> Vec<(String, Vec<u8>, bool)> {
             forged.utc_offset = -5;
             forged.flags = [0x02, 0x3f];
             out.push((format!("announce-peer-not-on-this-ports-list-other-contents-{k}"), rc::encode(&forged.announce_msg(peer.announce_seq.wrapping_add(1))), false));
+            // an unlisted boundary clock relaying a grandmaster that IS on the list
+            if let Some(listed) = list.first() {
+                let mut relay = peer.clone();
+                relay.gm_identity = listed.0;
+                relay.steps_removed = 1;
+                relay.priority1 = 1;
+                out.push((format!("announce-unlisted-relay-of-listed-grandmaster-{k}"), rc::encode(&relay.announce_msg(peer.announce_seq)), false));
+                out.push((format!("announce-unlisted-relay-of-listed-grandmaster-again-{k}"), rc::encode(&relay.announce_msg(peer.announce_seq.wrapping_add(1))), false));
+            }
         }
     }
     // Sync / Follow_Up / Delay_Resp not from the selected parent
